@@ -18,14 +18,16 @@ ROOT = os.path.dirname(os.path.dirname(os.path.abspath(__file__)))
 out = "/tmp/%s-results.json" % prefix
 res = json.load(open(out)) if os.path.exists(out) else {}
 seeds = []
-for d in sorted(glob.glob("/tmp/%s-C*/seeded/*/patch.diff" % prefix)):
+for d in sorted(glob.glob("/tmp/%s-*/seeded/*/patch.diff" % prefix)):
     wt = d.split("/seeded/")[0]; n = d.split("/seeded/")[1].split("/")[0]
     pid = wt.split("-")[-1]
     if only and pid not in only: continue
     seeds.append((pid, wt, n))
+def keyof(s):
+    return "%s/%s" % (os.path.basename(s[1])[len(prefix) + 1:], s[2])
 def confirm(s):
     pid, wt, n = s
-    key = "%s/%s" % (pid, n)
+    key = keyof(s)
     if res.get(key, {}).get("confirmed") is not None: return key, res[key]["confirm_out"]
     demo = [f for f in os.listdir("%s/seeded/%s" % (wt, n)) if f.endswith(".rs")]
     o = subprocess.run([os.path.join(ROOT, "orch", "confirm_seed.sh"), wt, n] + demo[:1], stdout=subprocess.PIPE, stderr=subprocess.STDOUT, text=True).stdout
@@ -48,7 +50,7 @@ with ThreadPoolExecutor(max_workers=6) as ex:
         print("%s confirmed=%s" % (key, ok), flush=True)
         json.dump(res, open(out, "w"), indent=1)
 for pid, wt, n in seeds:
-    key = "%s/%s" % (pid, n)
+    key = keyof((pid, wt, n))
     if not res[key]["confirmed"]: continue
     props = [pid] + [e for e in extra if e != pid]
     todo = [p for p in props if p not in res[key].get("checks", {})]
